@@ -242,6 +242,36 @@ def collect_S(pid, tier, seed):
     return obs, meta
 
 
+K_HARNESS = {"conv": ["C01", "C02"], "order": ["C05", "C02"], "names": ["C03", "C02"], "iter_history": ["C06", "C02"], "range_pair": ["C07", "C02"]}
+
+
+def collect_K(pid, tier):
+    r = artifacts.get_k(tier)
+    obs = []
+    meta = {"cache_hit": r.get("cache_hit"), "layer_wall_s": r.get("wall_s", 0), "kani_summary": r.get("summary"),
+            "domain": "per enum: every value of the repr (try_from), every variant, every ordered pair (range), every 3-step next/next_back history; loops fully unwound with unwinding assertions"}
+    if r.get("error"):
+        obs.append(Ob("K/harness", "undecided", "kani+cbmc", r["error"][-2500:]))
+        return obs, meta
+    for name, v in sorted(r["harnesses"].items()):
+        parts = name.split("::")
+        kind = parts[-1]
+        if pid not in K_HARNESS.get(kind, []):
+            continue
+        modname = parts[0]
+        if v["status"] == "ok":
+            obs.append(Ob("K/" + name, "ok", "kani+cbmc", sample={"harness": name, "enum": r.get("specs", {}).get(modname)}))
+        elif v["status"] == "failed":
+            unwind_only = v["failed_checks"] and all("unwinding assertion" in f for f in v["failed_checks"])
+            obs.append(Ob("K/" + name, "undecided" if unwind_only else "failed", "kani+cbmc",
+                          "Kani: " + "; ".join(v["failed_checks"]) + "\n" + v.get("tail", "")[-800:], sample={"enum": r.get("specs", {}).get(modname)}))
+        else:
+            obs.append(Ob("K/" + name, "undecided", "kani+cbmc", v.get("tail", "")[-800:]))
+    for modname, why in sorted((r.get("rejected") or {}).items()):
+        obs.append(Ob("K/compile/%s" % modname, "undecided", "rustc", why[:600]))
+    return obs, meta
+
+
 def _i_relevant(pid, prop):
     if prop == pid:
         return True
